@@ -276,3 +276,31 @@ Proof.
   - apply ex_sense_px0. lra.
   - destruct (m_sense ex_entry _) eqn:E; [|reflexivity]. apply ex_sense_px0 in E. lra.
 Qed.
+
+(* a deck over real surfaces on which the chain runs: cell 1 (x < 0) filled with universe 1 moved
+   by (2,0,0); universe 1 = cell 10 (x < 0), cell 11 (x > 0) *)
+Definition ex_link_state : x_state :=
+  mkSt (cons (1%Z, mkCell 0%Z 0%Z (TSurf (-1)) 1%Z 0%Z (Some 1%Z) (Some ex_motion) 0%Z nil nil)
+       (cons (10%Z, mkCell 7%Z 2%Z (TSurf (-1)) 1%Z 1%Z None None 0%Z nil nil)
+       (cons (11%Z, mkCell 8%Z 3%Z (TSurf 1) 1%Z 1%Z None None 0%Z nil nil) nil)))
+       (cons (1%Z, ex_entry) nil) 11%Z 1%Z nil nil.
+
+Definition ex_l1 : x_state :=
+  match trcl_phase motion wfentry m_empty m_eqb m_tr_surf 5 (map fst (s_cells ex_link_state))
+                   ex_link_state with Ok s => s | Err _ => ex_link_state end.
+Definition ex_l2 : list (list Z) * x_state :=
+  match fill_phase motion wfentry m_empty m_eqb m_tr_surf 5 5 false false ex_l1 with
+  | Ok r => r | Err _ => (nil, ex_l1) end.
+Definition ex_l3 : list (Z * cell motion) :=
+  match inline_cells motion 9 1%Z 1%Z (s_cells (snd ex_l2)) with Ok c => c | Err _ => nil end.
+
+Lemma ex_link_runs :
+  trcl_phase motion wfentry m_empty m_eqb m_tr_surf 5 (map fst (s_cells ex_link_state)) ex_link_state
+    = Ok ex_l1 /\
+  fill_phase motion wfentry m_empty m_eqb m_tr_surf 5 5 false false ex_l1 = Ok ex_l2 /\
+  inline_cells motion 9 1%Z 1%Z (s_cells (snd ex_l2)) = Ok ex_l3 /\
+  fst ex_l2 = cons (cons 13%Z (cons 15%Z nil)) nil.
+Proof.
+  split; [vm_compute; reflexivity|]. split; [vm_compute; reflexivity|].
+  split; vm_compute; reflexivity.
+Qed.
